@@ -22,6 +22,7 @@ Inductive tspec : Type := TAbs (t : F) | TRel (d : F).   (* absolute, or current
 
 Inductive sact : Type :=
 | SSetTimer (name : nat) (t : tspec)
+| SGotoHere                      (* in a telemetry callback: goto the reported position; else nothing *)
 | SAct (a : action F).
 
 Record rule : Type := mkRule { r_trig : trigger; r_nth : option nat; r_acts : list sact }.
@@ -60,11 +61,12 @@ Definition trig_match (t : trigger) (c : cb F) : bool :=
 Definition rule_fires (r : rule) (k : nat) (c : cb F) : bool :=
   trig_match (r_trig r) c && opt_match (r_nth r) k.
 
-Definition resolve (now : F) (s : sact) : action F :=
+Definition resolve (now : F) (c : cb F) (s : sact) : list (action F) :=
   match s with
-  | SSetTimer name (TAbs t) => ASetTimer name t
-  | SSetTimer name (TRel d) => ASetTimer name (fadd A now d)
-  | SAct a => a
+  | SSetTimer name (TAbs t) => [ASetTimer name t]
+  | SSetTimer name (TRel d) => [ASetTimer name (fadd A now d)]
+  | SGotoHere => match c with CbTelemetry pos => [AGoto pos] | _ => [] end
+  | SAct a => [a]
   end.
 
 Definition script_react (script : list (list rule)) (n : nat) (ps : counters) (now : F) (c : cb F)
@@ -72,6 +74,6 @@ Definition script_react (script : list (list rule)) (n : nat) (ps : counters) (n
   let k := kind_count ps c in
   let rules := nth n script [] in
   (kind_incr ps c,
-   flat_map (fun r => if rule_fires r k c then map (resolve now) (r_acts r) else []) rules).
+   flat_map (fun r => if rule_fires r k c then flat_map (resolve now c) (r_acts r) else []) rules).
 
 End Script.
